@@ -76,6 +76,7 @@ def _work(args):
         "states": res.get("states", []),
         "violations": res.get("violations", []),
         "timeout": bool(res.get("timeout")),
+        "volatile": bool(res.get("volatile")),
     }
     if keep:
         out["history"] = res.get("history", [])[:30]
@@ -304,7 +305,7 @@ def cmd_digest_runs(mod, seed, runs, tier):
     for r in runs:
         case = mod.gen_case(seed, r, tier)
         res = _finish(core.run_case_guarded(mod.execute, case, timeout_s=mod.RUN_TIMEOUT_S, hang_violation=getattr(mod, 'TIMEOUT_IS_VIOLATION', False)))
-        out[r] = (res["digest"], res["outcome_digest"])
+        out[r] = (res["digest"], res["outcome_digest"], bool(res.get("volatile")))
     print(json.dumps(out))
     return 0
 
@@ -386,7 +387,8 @@ def run_check(mod, prop, seed, args, t0):
                     keep_sample=False)
             if "history" in r and len(agg.samples) < 3:
                 agg.samples.append({"run": r["run"], "case": r.get("case"), "history_first_30_events": r["history"]})
-            all_runs.append((r["run"], r["digest"], r["outcome_digest"]))
+            if not r.get("volatile"):
+                all_runs.append((r["run"], r["digest"], r["outcome_digest"]))
 
     if tier == "quick":
         n = args.runs or mod.QUICK_RUNS
@@ -425,7 +427,10 @@ def run_check(mod, prop, seed, args, t0):
             ref = {r: (d, o) for r, d, o in sample}
             for hs, fut in futs:
                 got = fut.result()
-                for r, (d, o) in got.items():
+                for r, tup in got.items():
+                    d, o = tup[0], tup[1]
+                    if len(tup) > 2 and tup[2]:
+                        continue  # the child met a slow solver instance: timing-dependent, not compared
                     if hs == "0":
                         det_pairs += 1
                         if d != ref[r][0]:
